@@ -57,6 +57,10 @@ def cells(tier):
             out.append(mk(op, 4, gap=None, timeout=T))
             out.append(mk(op, 4, k=2, gap=None, rname='multi', timeout=T))
         out.append(mk('EAItemSwap', 4, k=2, gap=None, timeout=T))
+    # the usual replacement: a new version of the replaced item under its own ID, alone or among others
+    for op in ('roItemReplace', 'EAItemReplace'):
+        for k, j in ((1, 0), (2, 0), (2, 1), (3, 0), (3, 1), (3, 2)):
+            out.append(mk(op, 3, k=k, same=j, gap=None, timeout=T))
     # IDs of one or two characters: one ID may be a prefix or suffix of another
     for op, kw in (('roItemMoveMultiple', {'k': 2}), ('EAItemMove', {}), ('roItemDelete', {'k': 2}), ('roItemReplace', {}),
                    ('EAItemSwap', {'k': 2}), ('roItemInsert', {})):
@@ -66,6 +70,11 @@ def cells(tier):
                    ('EAItemSwap', {'k': 2}), ('roItemInsert', {}), ('EAItemInsert', {'tk': 'blank'}), ('EAItemDelete', {'k': 2}),
                    ('EAItemReplace', {})):
         out.append(mk(op, 3, gap=None, rname='any', timeout=T, extra={'prehist': True}, **kw))
+    # the same after a series of refused messages (what a non-strict collection merge leaves behind)
+    for op, kw in (('roItemMoveMultiple', {'k': 2}), ('EAItemMove', {}), ('EAItemMove', {'k': 2, 'tk': 'blank'}), ('roItemDelete', {}),
+                   ('roItemReplace', {}), ('EAItemSwap', {'k': 2}), ('roItemInsert', {}), ('EAItemInsert', {'tk': 'blank'}),
+                   ('EAItemDelete', {'k': 2}), ('EAItemReplace', {})):
+        out.append(mk(op, 3, gap=None, rname='any', timeout=T, extra={'prefail': True}, **kw))
     # the smallest shapes: a single item; every item of the story named as a source
     for op, kw in (('roItemMoveMultiple', {'tk': 'blank'}), ('EAItemMove', {'tk': 'blank'}), ('roItemDelete', {}), ('EAItemDelete', {}),
                    ('roItemReplace', {'k': 2}), ('EAItemReplace', {}), ('roItemInsert', {}), ('EAItemInsert', {'tk': 'blank'})):
